@@ -10,6 +10,7 @@ REGISTRY = {
     'C06': 'contracts.c06_units',
     'C13': 'contracts.c13_slicer',
     'C14': 'contracts.c14_parse',
+    'C16': 'contracts.c16_recipe',
     'C01': ('contracts.propsets', 'C01'),
     'C02': ('contracts.propsets', 'C02'),
     'C03': ('contracts.propsets', 'C03'),
